@@ -100,6 +100,8 @@ theorem isBelow_iff {k : Nat} {o : Option Nat} :
 theorem toNat_ofNat_lt {n : Nat} (h : n < 256) : (UInt8.ofNat n).toNat = n := by
   simp; omega
 
+theorem u8lt (x : UInt8) : x.toNat < 256 := x.toNat_lt
+
 theorem putOctet_some {n : Nat} (h : n < 256) : putOctet (some n) = .ok (UInt8.ofNat n) := by
   simp [putOctet, h]
 
@@ -113,16 +115,6 @@ theorem mask_semantics : ∀ b : Fin 256,
   decide +kernel
 
 /-! ## round trip -/
-
-theorem flag_octet3 (t : Nat) (ht : t < 8) (a b c : Bool) :
-    let n := t * 16 + (if a then 8 else 0) + (if b then 4 else 0) + (if c then 2 else 0)
-    (UInt8.ofNat n).toNat = n ∧ n / 16 % 16 = t ∧
-    bitSet n 8 = a ∧ bitSet n 4 = b ∧ bitSet n 2 = c := by
-  intro n
-  have hn : n < 256 := by
-    simp only [n]; cases a <;> cases b <;> cases c <;> simp <;> omega
-  refine ⟨toNat_ofNat_lt hn, ?_, ?_, ?_, ?_⟩ <;>
-    simp only [n, bitSet] <;> cases a <;> cases b <;> cases c <;> simp <;> omega
 
 theorem apci_roundtrip (h : Apci) (hw : WFHeader h = true) (payload : Bytes) :
     ∃ hdr, encodeApci h = .ok hdr ∧ decodeApci (hdr ++ payload) = .ok (h, payload) := by
@@ -232,5 +224,558 @@ theorem apci_total (bs : Bytes) :
     cases hs : bitSet b.toNat 8 <;> split <;>
     rcases r with _ | ⟨b1, _ | ⟨b2, _ | ⟨b3, _ | ⟨b4, _ | ⟨b5, r⟩⟩⟩⟩⟩ <;>
     simp [getU8, getSeqWin, bind, Except.bind, pure, Except.pure]
+
+/-- everything the decoder can return: a well-formed header of its type, having
+    consumed exactly `apciLen h` octets from the front and nothing else -/
+theorem decode_spec (bs : Bytes) (h : Apci) (rest : Bytes)
+    (hd : decodeApci bs = .ok (h, rest)) :
+    WFHeader h = true ∧ apciLen h ≤ bs.length ∧ rest = bs.drop (apciLen h) := by
+  rcases bs with _ | ⟨b, r⟩
+  · simp [decodeApci, getU8, bind, Except.bind] at hd
+  · simp only [decodeApci, getU8, bind, Except.bind] at hd
+    cases hs : bitSet b.toNat 8 <;> rw [hs] at hd <;> split at hd <;>
+    rcases r with _ | ⟨b1, _ | ⟨b2, _ | ⟨b3, _ | ⟨b4, _ | ⟨b5, r⟩⟩⟩⟩⟩ <;>
+    simp [getU8, getSeqWin, bind, Except.bind, pure, Except.pure] at hd <;>
+    obtain ⟨rfl, rfl⟩ := hd <;>
+    simp [WFHeader, segFields, isBelow, apciLen, truthy, u8lt] <;> omega
+
+/-- the decoder only ever produces well-formed headers -/
+theorem decode_wf (bs : Bytes) (h : Apci) (rest : Bytes)
+    (hd : decodeApci bs = .ok (h, rest)) : WFHeader h = true :=
+  (decode_spec bs h rest hd).1
+
+/-- no over-read, payload untouched: the input is the consumed header octets
+    followed by exactly the returned payload -/
+theorem decode_suffix (bs : Bytes) (h : Apci) (rest : Bytes)
+    (hd : decodeApci bs = .ok (h, rest)) :
+    bs = bs.take (apciLen h) ++ rest ∧ (bs.take (apciLen h)).length = apciLen h := by
+  obtain ⟨_, hl, rfl⟩ := decode_spec bs h rest hd
+  simp [List.length_take, Nat.min_eq_left hl]
+
+/-- what decodes, re-encodes, and the re-encoding (reserved bits cleared)
+    decodes to the same header and payload -/
+theorem reparse_stable (bs : Bytes) (h : Apci) (rest : Bytes)
+    (hd : decodeApci bs = .ok (h, rest)) :
+    ∃ hdr, encodeApci h = .ok hdr ∧ decodeApci (hdr ++ rest) = .ok (h, rest) :=
+  apci_roundtrip h (decode_wf bs h rest hd) rest
+
+/-- the encoder writes `apciLen h` octets -/
+theorem encode_length (h : Apci) (hdr : Bytes) (he : encodeApci h = .ok hdr) :
+    hdr.length = apciLen h := by
+  have hs : ∀ sw, putSeqWin h = .ok sw → sw.length = if truthy h.seg then 2 else 0 := by
+    intro sw; unfold putSeqWin
+    cases truthy h.seg <;> cases putOctet h.seq <;> cases putOctet h.win <;>
+      simp [bind, Except.bind, pure, Except.pure] <;> intro e <;> subst e <;> rfl
+  unfold encodeApci at he
+  unfold apciLen
+  simp only [bind, Except.bind, pure, Except.pure] at he
+  repeat' split at he
+  all_goals first
+    | (cases he; done)
+    | (injection he with he; subst he
+       first
+         | rfl
+         | (have := hs _ ‹_›; simp_all; done)
+         | (have := hs _ ‹_›; split <;> simp_all))
+
+/-! ## exactly which octet strings are refused -/
+
+theorem decode_refuses_empty : decodeApci [] = .error .decoding := by
+  simp [decodeApci, getU8, bind, Except.bind]
+
+/-- type nibble 8..15: `DecodingError("invalid APDU type")` whatever follows -/
+theorem decode_refuses_type (b : UInt8) (r : Bytes) (ht : 8 ≤ b.toNat / 16 % 16) :
+    decodeApci (b :: r) = .error .decoding := by
+  simp only [decodeApci, getU8, bind, Except.bind]
+  split <;> first | omega | rfl
+
+/-- fewer octets than the type (and its segmented flag) needs:
+    `DecodingError("no more packet data")` -/
+theorem decode_short (b : UInt8) (r : Bytes) (hl : r.length + 1 < apciNeed b.toNat) :
+    decodeApci (b :: r) = .error .decoding := by
+  simp only [decodeApci, getU8, bind, Except.bind]
+  simp only [apciNeed] at hl
+  cases hs : bitSet b.toNat 8 <;> rw [hs] at hl <;> split <;>
+  rcases r with _ | ⟨b1, _ | ⟨b2, _ | ⟨b3, _ | ⟨b4, _ | ⟨b5, r⟩⟩⟩⟩⟩ <;>
+  simp_all [getU8, getSeqWin, bind, Except.bind, pure, Except.pure] <;> omega
+
+/-- a known type nibble and enough octets: a header comes out -/
+theorem decode_long (b : UInt8) (r : Bytes) (ht : b.toNat / 16 % 16 < 8)
+    (hl : apciNeed b.toNat ≤ r.length + 1) :
+    ∃ h rest, decodeApci (b :: r) = .ok (h, rest) := by
+  rcases apci_total (b :: r) with h | h
+  · exact h
+  · exfalso
+    simp only [decodeApci, getU8, bind, Except.bind] at h
+    simp only [apciNeed] at hl
+    revert h hl
+    cases hs : bitSet b.toNat 8 <;> split <;>
+    rcases r with _ | ⟨b1, _ | ⟨b2, _ | ⟨b3, _ | ⟨b4, _ | ⟨b5, r⟩⟩⟩⟩⟩ <;>
+    simp_all [getU8, getSeqWin, bind, Except.bind, pure, Except.pure] <;> omega
+
+/-! ## the two code tables -/
+
+/-- the Python lists, regenerated from the live module on every run
+    (`translator/c07.py` → `Gen/ApduTables.lean`), are the model's tables,
+    i.e. the tables of clauses 20.1.2.4 and 20.1.2.5 -/
+theorem py_tables_match :
+    Gen.pyMaxSegsTable = maxSegsTable ∧ Gen.pyMaxApduTable = maxApduTable := by
+  decide
+
+/-- `apdu_types` registers exactly the eight classes under their type numbers,
+    and the `pduType` constants are the ones the model's branches use -/
+theorem py_registry_match :
+    Gen.pyApduTypes =
+      [(tConfirmedRequest, "ConfirmedRequestPDU"), (tUnconfirmedRequest, "UnconfirmedRequestPDU"),
+       (tSimpleAck, "SimpleAckPDU"), (tComplexAck, "ComplexAckPDU"),
+       (tSegmentAck, "SegmentAckPDU"), (tError, "ErrorPDU"), (tReject, "RejectPDU"),
+       (tAbort, "AbortPDU")] ∧
+    Gen.pyPduTypeOf =
+      [("AbortPDU", tAbort), ("ComplexAckPDU", tComplexAck),
+       ("ConfirmedRequestPDU", tConfirmedRequest), ("ErrorPDU", tError), ("RejectPDU", tReject),
+       ("SegmentAckPDU", tSegmentAck), ("SimpleAckPDU", tSimpleAck),
+       ("UnconfirmedRequestPDU", tUnconfirmedRequest)] := by
+  decide
+
+/-- the index ranges the two encoder loops visit (1..6 and 0..5) only meet
+    numeric entries — the `None <= arg` `TypeError` is unreachable -/
+theorem scan_ranges_numeric :
+    (∀ i : Fin 7, 1 ≤ i.val → ∃ v, maxSegsTable[i.val]? = some (some v)) ∧
+    (∀ i : Fin 6, ∃ v, maxApduTable[i.val]? = some (some v)) := by
+  constructor
+  · intro i hi
+    match i, hi with
+    | ⟨1, _⟩, _ => exact ⟨_, rfl⟩
+    | ⟨2, _⟩, _ => exact ⟨_, rfl⟩
+    | ⟨3, _⟩, _ => exact ⟨_, rfl⟩
+    | ⟨4, _⟩, _ => exact ⟨_, rfl⟩
+    | ⟨5, _⟩, _ => exact ⟨_, rfl⟩
+    | ⟨6, _⟩, _ => exact ⟨_, rfl⟩
+  · intro i
+    match i with
+    | ⟨0, _⟩ => exact ⟨_, rfl⟩
+    | ⟨1, _⟩ => exact ⟨_, rfl⟩
+    | ⟨2, _⟩ => exact ⟨_, rfl⟩
+    | ⟨3, _⟩ => exact ⟨_, rfl⟩
+    | ⟨4, _⟩ => exact ⟨_, rfl⟩
+    | ⟨5, _⟩ => exact ⟨_, rfl⟩
+
+/-- closed form of `encode_max_apdu_length_accepted` -/
+theorem encodeMaxApdu_eq (n : Nat) :
+    encodeMaxApdu n =
+      if 1476 ≤ n then .ok 5 else if 1024 ≤ n then .ok 4 else if 480 ≤ n then .ok 3
+      else if 206 ≤ n then .ok 2 else if 128 ≤ n then .ok 1 else if 50 ≤ n then .ok 0
+      else .error .valueRange := by
+  simp only [encodeMaxApdu, scanDown, maxApduTable]
+  repeat' split
+  all_goals simp_all
+
+/-- the codes that decode, and their values -/
+theorem decodeMaxApdu_ok (c v : Nat) (h : decodeMaxApdu c = .ok v) :
+    (c = 0 ∧ v = 50) ∨ (c = 1 ∧ v = 128) ∨ (c = 2 ∧ v = 206) ∨ (c = 3 ∧ v = 480) ∨
+    (c = 4 ∧ v = 1024) ∨ (c = 5 ∧ v = 1476) := by
+  rcases c with _|_|_|_|_|_|_|_|_|_|_|_|_|_|_|_|c <;>
+    simp [decodeMaxApdu, maxApduTable] at h <;> omega
+
+/-- **round down, never up, and the best such code** (max APDU length): the
+    chosen code means at most the local capability, and no code that decodes
+    means more without exceeding the capability -/
+theorem maxapdu_floor (n c : Nat) (h : encodeMaxApdu n = .ok c) :
+    ∃ v, decodeMaxApdu c = .ok v ∧ v ≤ n ∧
+      ∀ c' v', decodeMaxApdu c' = .ok v' → v' ≤ n → v' ≤ v := by
+  rw [encodeMaxApdu_eq] at h
+  repeat' split at h
+  all_goals first
+    | (cases h; done)
+    | (injection h with h; subst h
+       refine ⟨_, rfl, by omega, ?_⟩
+       intro c' v' hd hle
+       rcases decodeMaxApdu_ok c' v' hd with ⟨_, rfl⟩ | ⟨_, rfl⟩ | ⟨_, rfl⟩ | ⟨_, rfl⟩ |
+         ⟨_, rfl⟩ | ⟨_, rfl⟩ <;> omega)
+
+/-- capabilities below the smallest table entry are refused, all others encode -/
+theorem maxapdu_refused (n : Nat) :
+    (n < 50 → encodeMaxApdu n = .error .valueRange) ∧
+    (50 ≤ n → ∃ c, c < 6 ∧ encodeMaxApdu n = .ok c) := by
+  rw [encodeMaxApdu_eq]
+  constructor
+  · intro h; repeat' split
+    all_goals first | omega | rfl
+  · intro h; repeat' split
+    all_goals first | omega | exact ⟨_, by decide, rfl⟩
+
+/-- `decode ∘ encode` is the identity on the table points -/
+theorem maxapdu_decode_encode (c v : Nat) (h : decodeMaxApdu c = .ok v) :
+    encodeMaxApdu v = .ok c := by
+  rcases decodeMaxApdu_ok c v h with ⟨rfl, rfl⟩ | ⟨rfl, rfl⟩ | ⟨rfl, rfl⟩ | ⟨rfl, rfl⟩ |
+    ⟨rfl, rfl⟩ | ⟨rfl, rfl⟩ <;> rfl
+
+/-- `encode` only produces codes that decode (never a reserved code) -/
+theorem maxapdu_encode_decode (n c : Nat) (h : encodeMaxApdu n = .ok c) :
+    ∃ v, decodeMaxApdu c = .ok v ∧ encodeMaxApdu v = .ok c := by
+  obtain ⟨v, hv, _, _⟩ := maxapdu_floor n c h
+  exact ⟨v, hv, maxapdu_decode_encode c v hv⟩
+
+/-- reserved codes 6..15 are refused (`ValueError`), indices outside the list
+    fail differently (`IndexError`) -/
+theorem maxapdu_reserved (c : Nat) :
+    (6 ≤ c → c < 16 → decodeMaxApdu c = .error .valueRange) ∧
+    (16 ≤ c → decodeMaxApdu c = .error .other) := by
+  constructor
+  · intro h1 h2
+    rcases c with _|_|_|_|_|_|_|_|_|_|_|_|_|_|_|_|c <;>
+      first | omega | simp [decodeMaxApdu, maxApduTable]
+  · intro h
+    have : maxApduTable[c]? = none := by
+      apply List.getElem?_eq_none; simp [maxApduTable]; omega
+    simp [decodeMaxApdu, this]
+
+/-- which capabilities get which code -/
+theorem encodeMaxApdu_spec (n c : Nat) (h : encodeMaxApdu n = .ok c) :
+    (c = 5 ∧ 1476 ≤ n) ∨ (c = 4 ∧ 1024 ≤ n ∧ n < 1476) ∨ (c = 3 ∧ 480 ≤ n ∧ n < 1024) ∨
+    (c = 2 ∧ 206 ≤ n ∧ n < 480) ∨ (c = 1 ∧ 128 ≤ n ∧ n < 206) ∨ (c = 0 ∧ 50 ≤ n ∧ n < 128) := by
+  rw [encodeMaxApdu_eq] at h
+  repeat' split at h
+  all_goals first
+    | (cases h; done)
+    | (injection h with h; omega)
+
+/-- a larger capability never gets a smaller code -/
+theorem maxapdu_mono (n m c d : Nat) (hnm : n ≤ m)
+    (hn : encodeMaxApdu n = .ok c) (hm : encodeMaxApdu m = .ok d) : c ≤ d := by
+  have a := encodeMaxApdu_spec n c hn
+  have b := encodeMaxApdu_spec m d hm
+  omega
+
+/-- closed form of `encode_max_segments_accepted` on numbers -/
+theorem encodeMaxSegs_eq (n : Nat) :
+    encodeMaxSegs (some n) =
+      if n = 0 then .ok 0 else if 64 < n then .ok 7 else if 64 ≤ n then .ok 6
+      else if 32 ≤ n then .ok 5 else if 16 ≤ n then .ok 4 else if 8 ≤ n then .ok 3
+      else if 4 ≤ n then .ok 2 else if 2 ≤ n then .ok 1 else .error .valueRange := by
+  simp only [encodeMaxSegs, scanDown, maxSegsTable]
+  repeat' split
+  all_goals simp_all
+
+/-- the codes and their meanings; `none` = no number (unspecified / more than 64) -/
+theorem decodeMaxSegs_ok (c : Nat) (v : Option Nat) (h : decodeMaxSegs c = .ok v) :
+    (c = 0 ∧ v = none) ∨ (c = 1 ∧ v = some 2) ∨ (c = 2 ∧ v = some 4) ∨ (c = 3 ∧ v = some 8) ∨
+    (c = 4 ∧ v = some 16) ∨ (c = 5 ∧ v = some 32) ∨ (c = 6 ∧ v = some 64) ∨
+    (c = 7 ∧ v = none) := by
+  rcases c with _|_|_|_|_|_|_|_|c <;>
+    simp [decodeMaxSegs, maxSegsTable] at h <;> simp [← h]
+
+/-- **round down, never up, and the best such code** (max segments) for every
+    capability with a finite table meaning: 2..64 -/
+theorem maxseg_floor (n : Nat) (h2 : 2 ≤ n) (h64 : n ≤ 64) :
+    ∃ c v, encodeMaxSegs (some n) = .ok c ∧ decodeMaxSegs c = .ok (some v) ∧ v ≤ n ∧
+      ∀ c' v', decodeMaxSegs c' = .ok (some v') → v' ≤ n → v' ≤ v := by
+  rw [encodeMaxSegs_eq]
+  repeat' split
+  all_goals first
+    | omega
+    | (refine ⟨_, _, rfl, rfl, by omega, ?_⟩
+       intro c' v' hd hle
+       rcases decodeMaxSegs_ok c' _ hd with ⟨_, hv⟩ | ⟨_, hv⟩ | ⟨_, hv⟩ | ⟨_, hv⟩ | ⟨_, hv⟩ |
+         ⟨_, hv⟩ | ⟨_, hv⟩ | ⟨_, hv⟩ <;> simp at hv <;> omega)
+
+/-- above 64 the code is 7 ("more than 64 segments" — true of the capability,
+    and every numeric code would understate it); it decodes to "no bound" -/
+theorem maxseg_over64 (n : Nat) (h : 64 < n) :
+    encodeMaxSegs (some n) = .ok 7 ∧ decodeMaxSegs 7 = .ok none ∧
+    ∀ c' v', decodeMaxSegs c' = .ok (some v') → v' < n := by
+  refine ⟨?_, rfl, ?_⟩
+  · rw [encodeMaxSegs_eq, if_neg (by omega), if_pos h]
+  · intro c' v' hd
+    rcases decodeMaxSegs_ok c' _ hd with ⟨_, hv⟩ | ⟨_, hv⟩ | ⟨_, hv⟩ | ⟨_, hv⟩ | ⟨_, hv⟩ |
+      ⟨_, hv⟩ | ⟨_, hv⟩ | ⟨_, hv⟩ <;> simp at hv <;> omega
+
+/-- `None` and 0 are "unspecified": code 0, which decodes to "no bound" -/
+theorem maxseg_unspecified :
+    encodeMaxSegs none = .ok 0 ∧ encodeMaxSegs (some 0) = .ok 0 ∧ decodeMaxSegs 0 = .ok none :=
+  ⟨rfl, rfl, rfl⟩
+
+/-- one segment is refused -/
+theorem maxseg_one_refused : encodeMaxSegs (some 1) = .error .valueRange := rfl
+
+/-- `encode ∘ decode` on the eight codes: identity, except that 7 and 0 both
+    mean "no bound" and re-encode as 0 -/
+theorem maxseg_decode_encode (c : Nat) (v : Option Nat) (h : decodeMaxSegs c = .ok v) :
+    encodeMaxSegs v = .ok (if c = 7 then 0 else c) := by
+  rcases decodeMaxSegs_ok c v h with ⟨rfl, rfl⟩ | ⟨rfl, rfl⟩ | ⟨rfl, rfl⟩ | ⟨rfl, rfl⟩ |
+    ⟨rfl, rfl⟩ | ⟨rfl, rfl⟩ | ⟨rfl, rfl⟩ | ⟨rfl, rfl⟩ <;> rfl
+
+/-- `encode` only produces codes 0..7, all of which decode -/
+theorem maxseg_encode_decode (a : Option Nat) (c : Nat) (h : encodeMaxSegs a = .ok c) :
+    c < 8 ∧ ∃ v, decodeMaxSegs c = .ok v := by
+  cases a with
+  | none => cases h; exact ⟨by decide, _, rfl⟩
+  | some n =>
+    rw [encodeMaxSegs_eq] at h
+    repeat' split at h
+    all_goals first
+      | (cases h; done)
+      | (injection h with h; subst h; exact ⟨by decide, _, rfl⟩)
+
+/-- codes outside 0..7 are not in the list (`IndexError`) -/
+theorem maxseg_out_of_table (c : Nat) (h : 8 ≤ c) : decodeMaxSegs c = .error .other := by
+  have : maxSegsTable[c]? = none := by
+    apply List.getElem?_eq_none; simp [maxSegsTable]; omega
+  simp [decodeMaxSegs, this]
+
+/-- which capabilities get which code -/
+theorem encodeMaxSegs_spec (n c : Nat) (h : encodeMaxSegs (some n) = .ok c) :
+    (c = 0 ∧ n = 0) ∨ (c = 7 ∧ 64 < n) ∨ (c = 6 ∧ n = 64) ∨ (c = 5 ∧ 32 ≤ n ∧ n < 64) ∨
+    (c = 4 ∧ 16 ≤ n ∧ n < 32) ∨ (c = 3 ∧ 8 ≤ n ∧ n < 16) ∨ (c = 2 ∧ 4 ≤ n ∧ n < 8) ∨
+    (c = 1 ∧ 2 ≤ n ∧ n < 4) := by
+  rw [encodeMaxSegs_eq] at h
+  repeat' split at h
+  all_goals first
+    | (cases h; done)
+    | (injection h with h; omega)
+
+/-- a larger (specified) capability never gets a smaller code -/
+theorem maxseg_mono (n m c d : Nat) (h0 : 0 < n) (hnm : n ≤ m)
+    (hn : encodeMaxSegs (some n) = .ok c) (hm : encodeMaxSegs (some m) = .ok d) : c ≤ d := by
+  have a := encodeMaxSegs_spec n c hn
+  have b := encodeMaxSegs_spec m d hm
+  omega
+
+/-! ## clause 20.1 layouts, octet by octet
+
+  Written with shifts and ors exactly as the clause draws the octets
+  (bit 7 left … bit 0 right):
+
+      BACnet-Confirmed-Request-PDU   | PDU type = 0 (4 bits) |SEG|MOR|SA | 0 |
+                                     | 0 | max segs (3 bits) | max resp (4 bits) |
+                                     | invoke ID |
+                                     | sequence number |        only if SEG = 1
+                                     | proposed window size |   only if SEG = 1
+                                     | service choice | service request …
+      BACnet-Unconfirmed-Request-PDU | PDU type = 1 | 0 0 0 0 | service choice | …
+      BACnet-SimpleACK-PDU           | PDU type = 2 | 0 0 0 0 | invoke ID | service ACK choice |
+      BACnet-ComplexACK-PDU          | PDU type = 3 |SEG|MOR| 0 | 0 | invoke ID |
+                                     | sequence number | proposed window size |   only if SEG = 1
+                                     | service ACK choice | service ACK …
+      BACnet-SegmentACK-PDU          | PDU type = 4 | 0 | 0 |NAK|SRV| invoke ID |
+                                     | sequence number | actual window size |
+      BACnet-Error-PDU               | PDU type = 5 | 0 0 0 0 | invoke ID | error choice | error …
+      BACnet-Reject-PDU              | PDU type = 6 | 0 0 0 0 | invoke ID | reject reason |
+      BACnet-Abort-PDU               | PDU type = 7 | 0 | 0 | 0 |SRV| invoke ID | abort reason |
+
+  These theorems restate the model in the notation of the standard; they are
+  the reviewable link between the two and are trusted as such (the text of the
+  standard is not available to the machine).
+-/
+
+/-- a flag as the bit the clause draws -/
+def bit (b : Bool) : Nat := if b then 1 else 0
+
+theorem shl4_or : ∀ a : Fin 8, ∀ b : Fin 16, a.val <<< 4 ||| b.val = a.val * 16 + b.val := by
+  decide
+
+theorem apci_layout_confirmed (seg mor sa : Bool) (ms mr inv sq wn svc : Nat)
+    (hms : ms < 8) (hmr : mr < 16) (hinv : inv < 256) (hsq : sq < 256) (hwn : wn < 256)
+    (hsvc : svc < 256) :
+    encodeApci { apduType := 0, seg := some seg, mor := some mor, sa := some sa,
+                 maxSegs := some ms, maxResp := some mr, invokeID := some inv,
+                 seq := if seg then some sq else none, win := if seg then some wn else none,
+                 service := some svc } =
+      .ok ([UInt8.ofNat (0 <<< 4 ||| bit seg <<< 3 ||| bit mor <<< 2 ||| bit sa <<< 1),
+            UInt8.ofNat (ms <<< 4 ||| mr), UInt8.ofNat inv]
+           ++ (if seg then [UInt8.ofNat sq, UInt8.ofNat wn] else [])
+           ++ [UInt8.ofNat svc]) := by
+  have h1 := shl4_or ⟨ms, hms⟩ ⟨mr, hmr⟩
+  simp only at h1
+  have h2 : ms * 16 + mr < 256 := by omega
+  cases seg <;> cases mor <;> cases sa <;>
+    simp [encodeApci, putOctet, maxOctet, putSeqWin, truthy, flagBit, bit, h1, h2, hinv, hsq, hwn,
+      hsvc, bind, Except.bind, pure, Except.pure]
+
+theorem apci_layout_unconfirmed (svc : Nat) (hsvc : svc < 256) :
+    encodeApci { apduType := 1, service := some svc } =
+      .ok [UInt8.ofNat (1 <<< 4), UInt8.ofNat svc] := by
+  simp [encodeApci, putOctet, hsvc, bind, Except.bind, pure, Except.pure]
+
+theorem apci_layout_simpleAck (inv svc : Nat) (hinv : inv < 256) (hsvc : svc < 256) :
+    encodeApci { apduType := 2, invokeID := some inv, service := some svc } =
+      .ok [UInt8.ofNat (2 <<< 4), UInt8.ofNat inv, UInt8.ofNat svc] := by
+  simp [encodeApci, putOctet, hinv, hsvc, bind, Except.bind, pure, Except.pure]
+
+theorem apci_layout_complexAck (seg mor : Bool) (inv sq wn svc : Nat)
+    (hinv : inv < 256) (hsq : sq < 256) (hwn : wn < 256) (hsvc : svc < 256) :
+    encodeApci { apduType := 3, seg := some seg, mor := some mor, invokeID := some inv,
+                 seq := if seg then some sq else none, win := if seg then some wn else none,
+                 service := some svc } =
+      .ok ([UInt8.ofNat (3 <<< 4 ||| bit seg <<< 3 ||| bit mor <<< 2), UInt8.ofNat inv]
+           ++ (if seg then [UInt8.ofNat sq, UInt8.ofNat wn] else [])
+           ++ [UInt8.ofNat svc]) := by
+  cases seg <;> cases mor <;>
+    simp [encodeApci, putOctet, putSeqWin, truthy, flagBit, bit, hinv, hsq, hwn,
+      hsvc, bind, Except.bind, pure, Except.pure]
+
+theorem apci_layout_segmentAck (nak srv : Bool) (inv sq wn : Nat)
+    (hinv : inv < 256) (hsq : sq < 256) (hwn : wn < 256) :
+    encodeApci { apduType := 4, nak := some nak, srv := some srv, invokeID := some inv,
+                 seq := some sq, win := some wn } =
+      .ok [UInt8.ofNat (4 <<< 4 ||| bit nak <<< 1 ||| bit srv), UInt8.ofNat inv,
+           UInt8.ofNat sq, UInt8.ofNat wn] := by
+  cases nak <;> cases srv <;>
+    simp [encodeApci, putOctet, truthy, flagBit, bit, hinv, hsq, hwn,
+      bind, Except.bind, pure, Except.pure]
+
+theorem apci_layout_error (inv svc : Nat) (hinv : inv < 256) (hsvc : svc < 256) :
+    encodeApci { apduType := 5, invokeID := some inv, service := some svc } =
+      .ok [UInt8.ofNat (5 <<< 4), UInt8.ofNat inv, UInt8.ofNat svc] := by
+  simp [encodeApci, putOctet, hinv, hsvc, bind, Except.bind, pure, Except.pure]
+
+theorem apci_layout_reject (inv rsn : Nat) (hinv : inv < 256) (hrsn : rsn < 256) :
+    encodeApci { apduType := 6, invokeID := some inv, reason := some rsn } =
+      .ok [UInt8.ofNat (6 <<< 4), UInt8.ofNat inv, UInt8.ofNat rsn] := by
+  simp [encodeApci, putOctet, hinv, hrsn, bind, Except.bind, pure, Except.pure]
+
+theorem apci_layout_abort (srv : Bool) (inv rsn : Nat) (hinv : inv < 256) (hrsn : rsn < 256) :
+    encodeApci { apduType := 7, srv := some srv, invokeID := some inv, reason := some rsn } =
+      .ok [UInt8.ofNat (7 <<< 4 ||| bit srv), UInt8.ofNat inv, UInt8.ofNat rsn] := by
+  cases srv <;>
+    simp [encodeApci, putOctet, truthy, flagBit, bit, hinv, hrsn,
+      bind, Except.bind, pure, Except.pure]
+
+/-- anything but the eight types: `ValueError("invalid APCI.apduType")` -/
+theorem encode_refuses_type (h : Apci) (ht : 8 ≤ h.apduType) : encodeApci h = .error .other := by
+  unfold encodeApci
+  split <;> first | omega | rfl
+
+/-- the encoder fails on nothing but a bad type or an unencodable field -/
+theorem encode_errors (h : Apci) (e : Err) (he : encodeApci h = .error e) :
+    e = .other ∨ e = .encoding := by
+  have hp : ∀ o x, putOctet o = .error x → x = .encoding := by
+    intro o x; unfold putOctet; split
+    · split <;> simp <;> intro e <;> exact e.symm
+    · simp; intro e; exact e.symm
+  have hs : ∀ x, putSeqWin h = .error x → x = .encoding := by
+    intro x; unfold putSeqWin
+    cases truthy h.seg <;> cases h6 : putOctet h.seq <;> cases h7 : putOctet h.win <;>
+      simp [bind, Except.bind, pure, Except.pure] <;> intro e <;> subst e <;>
+      first | exact hp _ _ h6 | exact hp _ _ h7
+  unfold encodeApci at he
+  simp only [bind, Except.bind, pure, Except.pure] at he
+  repeat' split at he
+  all_goals first
+    | (cases he; done)
+    | (injection he with he; subst he
+       first
+         | exact Or.inl rfl
+         | exact Or.inr (hp _ _ ‹_›)
+         | exact Or.inr (hs _ ‹_›))
+
+/-! ## the round trip spelled out per PDU type (corollaries of `apci_roundtrip`)
+
+  One statement per type, quantified over ALL values of every field of the
+  type and over every payload. -/
+
+theorem apci_roundtrip_confirmed (seg mor sa : Bool) (ms mr inv sq wn svc : Nat)
+    (hms : ms < 8) (hmr : mr < 16) (hinv : inv < 256) (hsq : sq < 256) (hwn : wn < 256)
+    (hsvc : svc < 256) (payload : Bytes) :
+    let h : Apci := { apduType := 0, seg := some seg, mor := some mor, sa := some sa,
+                      maxSegs := some ms, maxResp := some mr, invokeID := some inv,
+                      seq := if seg then some sq else none, win := if seg then some wn else none,
+                      service := some svc }
+    ∃ hdr, encodeApci h = .ok hdr ∧ decodeApci (hdr ++ payload) = .ok (h, payload) :=
+  apci_roundtrip _ (by cases seg <;> simp [WFHeader, segFields, isBelow, *]) payload
+
+theorem apci_roundtrip_unconfirmed (svc : Nat) (hsvc : svc < 256) (payload : Bytes) :
+    let h : Apci := { apduType := 1, service := some svc }
+    ∃ hdr, encodeApci h = .ok hdr ∧ decodeApci (hdr ++ payload) = .ok (h, payload) :=
+  apci_roundtrip _ (by simp [WFHeader, isBelow, *]) payload
+
+theorem apci_roundtrip_simpleAck (inv svc : Nat) (hinv : inv < 256) (hsvc : svc < 256)
+    (payload : Bytes) :
+    let h : Apci := { apduType := 2, invokeID := some inv, service := some svc }
+    ∃ hdr, encodeApci h = .ok hdr ∧ decodeApci (hdr ++ payload) = .ok (h, payload) :=
+  apci_roundtrip _ (by simp [WFHeader, isBelow, *]) payload
+
+theorem apci_roundtrip_complexAck (seg mor : Bool) (inv sq wn svc : Nat)
+    (hinv : inv < 256) (hsq : sq < 256) (hwn : wn < 256) (hsvc : svc < 256) (payload : Bytes) :
+    let h : Apci := { apduType := 3, seg := some seg, mor := some mor, invokeID := some inv,
+                      seq := if seg then some sq else none, win := if seg then some wn else none,
+                      service := some svc }
+    ∃ hdr, encodeApci h = .ok hdr ∧ decodeApci (hdr ++ payload) = .ok (h, payload) :=
+  apci_roundtrip _ (by cases seg <;> simp [WFHeader, segFields, isBelow, *]) payload
+
+theorem apci_roundtrip_segmentAck (nak srv : Bool) (inv sq wn : Nat)
+    (hinv : inv < 256) (hsq : sq < 256) (hwn : wn < 256) (payload : Bytes) :
+    let h : Apci := { apduType := 4, nak := some nak, srv := some srv, invokeID := some inv,
+                      seq := some sq, win := some wn }
+    ∃ hdr, encodeApci h = .ok hdr ∧ decodeApci (hdr ++ payload) = .ok (h, payload) :=
+  apci_roundtrip _ (by simp [WFHeader, isBelow, *]) payload
+
+theorem apci_roundtrip_error (inv svc : Nat) (hinv : inv < 256) (hsvc : svc < 256)
+    (payload : Bytes) :
+    let h : Apci := { apduType := 5, invokeID := some inv, service := some svc }
+    ∃ hdr, encodeApci h = .ok hdr ∧ decodeApci (hdr ++ payload) = .ok (h, payload) :=
+  apci_roundtrip _ (by simp [WFHeader, isBelow, *]) payload
+
+theorem apci_roundtrip_reject (inv rsn : Nat) (hinv : inv < 256) (hrsn : rsn < 256)
+    (payload : Bytes) :
+    let h : Apci := { apduType := 6, invokeID := some inv, reason := some rsn }
+    ∃ hdr, encodeApci h = .ok hdr ∧ decodeApci (hdr ++ payload) = .ok (h, payload) :=
+  apci_roundtrip _ (by simp [WFHeader, isBelow, *]) payload
+
+theorem apci_roundtrip_abort (srv : Bool) (inv rsn : Nat) (hinv : inv < 256) (hrsn : rsn < 256)
+    (payload : Bytes) :
+    let h : Apci := { apduType := 7, srv := some srv, invokeID := some inv, reason := some rsn }
+    ∃ hdr, encodeApci h = .ok hdr ∧ decodeApci (hdr ++ payload) = .ok (h, payload) :=
+  apci_roundtrip _ (by simp [WFHeader, isBelow, *]) payload
+
+/-- `APDU.decode` is total in the same sense -/
+theorem apdu_total (bs : Bytes) :
+    (∃ h payload, decodeApdu bs = .ok (h, payload)) ∨ decodeApdu bs = .error .decoding := by
+  rw [decodeApdu_eq]; exact apci_total bs
+
+/-! ## non-vacuity and concrete instances (tests, not theorems)
+
+  The hypotheses of the theorems above are met by non-trivial headers, and the
+  model produces the octets one expects from clause 20.1. -/
+
+/-- a segmented confirmed request with every flag family exercised -/
+def exConfirmed : Apci :=
+  { apduType := 0, seg := some true, mor := some true, sa := some false,
+    maxSegs := some 7, maxResp := some 5, invokeID := some 255,
+    seq := some 128, win := some 127, service := some 12 }
+
+example : WFHeader exConfirmed = true := by decide
+example : encodeApci exConfirmed = .ok [0x0C, 0x75, 0xFF, 0x80, 0x7F, 0x0C] := rfl
+example : decodeApci [0x0C, 0x75, 0xFF, 0x80, 0x7F, 0x0C, 0xAA, 0xBB] =
+    .ok (exConfirmed, [0xAA, 0xBB]) := rfl
+example : WFHeader { apduType := 4, nak := some true, srv := some false, invokeID := some 1,
+                     seq := some 255, win := some 0 } = true := by decide
+example : encodeApci { apduType := 4, nak := some true, srv := some false, invokeID := some 1,
+                       seq := some 255, win := some 0 } = .ok [0x42, 0x01, 0xFF, 0x00] := rfl
+example : WFHeader { apduType := 7, srv := some true, invokeID := some 9, reason := some 65 }
+    = true := by decide
+example : encodeApci { apduType := 7, srv := some true, invokeID := some 9, reason := some 65 }
+    = .ok [0x71, 0x09, 0x41] := rfl
+-- reserved bits are ignored by the decoder (so decoding is not injective)
+example : decodeApci [0x1F, 0x08, 0x01] = .ok ({ apduType := 1, service := some 8 }, [0x01]) := rfl
+-- bit 7 of the second octet of a confirmed request is ignored (mask 0x07)
+example : decodeApci [0x00, 0xF5, 0x01, 0x0C] =
+    .ok ({ apduType := 0, seg := some false, mor := some false, sa := some false,
+           maxSegs := some 7, maxResp := some 5, invokeID := some 1, service := some 12 }, []) := rfl
+-- headers outside `WFHeader`: a code that does not fit is not restored
+example : WFHeader { exConfirmed with maxSegs := some 9 } = false := by decide
+example : encodeApci { exConfirmed with maxSegs := some 16 } = .error .encoding := rfl
+example : encodeApci { exConfirmed with invokeID := none } = .error .encoding := rfl
+example : encodeApci { exConfirmed with apduType := 8 } = .error .other := rfl
+-- short input and bad type
+example : decodeApci [0x0C, 0x75, 0xFF, 0x80, 0x7F] = .error .decoding := rfl
+example : decodeApci [0x80, 0x00, 0x00, 0x00] = .error .decoding := rfl
+example : apciNeed 0x0C = 6 ∧ apciNeed 0x30 = 3 ∧ apciNeed 0x38 = 5 ∧ apciNeed 0x90 = 0 := by decide
+-- table hypotheses are met
+example : encodeMaxApdu 1000 = .ok 3 ∧ decodeMaxApdu 3 = .ok 480 := ⟨rfl, rfl⟩
+example : encodeMaxApdu 49 = .error .valueRange := rfl
+example : encodeMaxSegs (some 63) = .ok 5 ∧ decodeMaxSegs 5 = .ok (some 32) := ⟨rfl, rfl⟩
+example : encodeMaxSegs (some 65) = .ok 7 := rfl
+example : decodeMaxApdu 9 = .error .valueRange ∧ decodeMaxApdu 16 = .error .other := ⟨rfl, rfl⟩
 
 end BacVerif.C07
